@@ -17,6 +17,7 @@ from pyvc.ghost import implies, iff
 import spec.pots as SP
 import contracts.engine as E
 from pokerkit.state import Mode
+from pokerkit.utilities import Rank, Suit
 
 Q = 'pokerkit.state.State.'
 REFUSAL = (ValueError, UserWarning)
@@ -32,13 +33,71 @@ def base(s):
             and all(len(s.hole_cards[i]) == len(s.hole_card_statuses[i]) for i in range(s.player_count)))
 
 
+def known_hole_cards(s, i):
+    """the hole cards of player i that are known (an unknown card -- rank or suit missing -- is not a card anyone can use)"""
+    return tuple(c for c in s.hole_cards[i] if known_card(c))
+
+
+def shown_hole_cards(s, i):
+    return tuple(s.hole_cards[i][k] for k in range(len(s.hole_cards[i])) if s.hole_card_statuses[i][k])
+
+
+def known_card(c):
+    return c.rank != Rank.UNKNOWN and c.suit != Suit.UNKNOWN
+
+
+def hand_of(s, i, j, t):
+    """the statement's "his hand": the best hand of type t that player i, if still in, makes from his KNOWN hole cards and board j"""
+    if not s.statuses[i]:
+        return None
+    return s.hand_types[t].from_game_or_none(known_hole_cards(s, i), s.get_board_cards(j))
+
+
+def shown_hand_of(s, i, j, t):
+    """what the table can see: the same from the cards he has face up"""
+    if not s.statuses[i]:
+        return None
+    return s.hand_types[t].from_game_or_none(shown_hole_cards(s, i), s.get_board_cards(j))
+
+
 def can_win(s, i):
-    """the statement's condition, over the engine's own queries for hands and pots"""
+    """the statement's condition, over the engine's own queries for hands (their contracts: get_hand / get_up_hand below) and pots"""
     n = s.player_count
     return any(s.get_hand(i, j, t) is not None
                and all(not any(k == c for c in p.player_indices) or s.get_up_hand(k, j, t) is None
                        or not (s.get_hand(i, j, t) < s.get_up_hand(k, j, t)) for k in range(n))
                for j in range(board_count_of(s)) for t in range(len(s.hand_types)) for p in s.pots)
+
+
+@contract(Q + 'get_hand', 'C12')
+class get_hand:
+    args = {'player_index': ArgSpec(kind='index'), 'board_index': ArgSpec(kind='const', value=0), 'hand_type_index': ArgSpec(kind='const', value=0)}
+    argnames = ('player_index', 'board_index', 'hand_type_index')
+    raises = {}
+
+    def requires(s):
+        return base(s)
+
+    @P('C12', '(m0) the hand the engine judges a player by is the best hand from his known hole cards and the board -- a card he keeps face '
+              'down or that is unknown takes nothing away from the cards he has')
+    def is_the_hand_from_the_known_cards(s, player_index, board_index, hand_type_index, r):
+        want = hand_of(s, player_index, board_index, hand_type_index)
+        return (r is None) == (want is None) and (r is None or r == want)
+
+
+@contract(Q + 'get_up_hand', 'C12')
+class get_up_hand:
+    args = {'player_index': ArgSpec(kind='index'), 'board_index': ArgSpec(kind='const', value=0), 'hand_type_index': ArgSpec(kind='const', value=0)}
+    argnames = ('player_index', 'board_index', 'hand_type_index')
+    raises = {}
+
+    def requires(s):
+        return base(s)
+
+    @P('C12', '(m0) the hand the others are judged against is the best hand from the cards the player has face up and the board')
+    def is_the_hand_from_the_shown_cards(s, player_index, board_index, hand_type_index, r):
+        want = shown_hand_of(s, player_index, board_index, hand_type_index)
+        return (r is None) == (want is None) and (r is None or r == want)
 
 
 @contract(Q + 'can_win_now', 'C12')
